@@ -472,6 +472,39 @@ def r4_recorded_once(ctx, rep, R='C17.R4'):
               'options.xmlOutput', key='install', func=fc.qualname, where=ctx.where(fc, fc.node))
 
 
+def _is_classname_expr(e):
+    """``get_test_class_name(test)`` or, written out, ``<test>.__module__ + '.' + <test>.__class__.__name__``
+    as an f-string / %-format / concatenation with exactly the separator '.'"""
+    if isinstance(e, ast.Call) and call_name(e) == 'get_test_class_name':
+        return True
+    t = norm(e)
+    if '.__module__' not in t or '.__class__.__name__' not in t:
+        return False
+    if isinstance(e, ast.JoinedStr):
+        consts = [v.value for v in e.values if isinstance(v, ast.Constant)]
+        vals = [v for v in e.values if isinstance(v, ast.FormattedValue)]
+        return consts == ['.'] and len(vals) == 2 and '__module__' in norm(vals[0].value)
+    if isinstance(e, ast.BinOp) and isinstance(e.op, ast.Mod) and isinstance(e.left, ast.Constant):
+        return e.left.value == '%s.%s' and isinstance(e.right, ast.Tuple) and \
+            '__module__' in norm(e.right.elts[0])
+    if isinstance(e, ast.BinOp) and isinstance(e.op, ast.Add):
+        parts = []
+
+        def flat(x):
+            if isinstance(x, ast.BinOp) and isinstance(x.op, ast.Add):
+                flat(x.left)
+                flat(x.right)
+            else:
+                parts.append(x)
+        flat(e)
+        return len(parts) == 3 and isinstance(parts[1], ast.Constant) and parts[1].value == '.' and \
+            '__module__' in norm(parts[0])
+    if isinstance(e, ast.Call) and isinstance(e.func, ast.Attribute) and e.func.attr == 'join' and \
+            isinstance(e.func.value, ast.Constant) and e.func.value.value == '.':
+        return True
+    return False
+
+
 def r5_own_class_and_name(ctx, rep, R='C17.R5'):
     rep.rule(R, 'a unittest test case is recorded under its own class and name: the class name is '
              '<module>.<class> of the test object and the test name is the test id with exactly '
@@ -496,18 +529,20 @@ def r5_own_class_and_name(ctx, rep, R='C17.R5'):
     suite, name, cls = [val(e) for e in rets[0].value.elts]
     idv = [k for k, v in env.items() if isinstance(v, ast.Call) and isinstance(v.func, ast.Attribute)
            and v.func.attr == 'id']
-    okc = isinstance(cls, ast.Call) and call_name(cls) == 'get_test_class_name' and \
-        norm(suite) == norm(cls)
+    okc = _is_classname_expr(cls) and norm(suite) == norm(cls)
     rep.check(okc, R, 'class name and suite are get_test_class_name(test)',
               'the recorded class is %s' % norm(cls), key='own:class', func=fi.qualname,
               where=ctx.where(fi, rets[0]))
     verdict, why = None, ''
-    clsnames = {k for k, v in env.items() if isinstance(v, ast.Call) and
-                call_name(v) == 'get_test_class_name'}
+    clsnames = {k for k, v in env.items() if _is_classname_expr(v)}
     if isinstance(name, ast.Subscript) and isinstance(name.value, ast.Name) and \
             name.value.id in idv and isinstance(name.slice, ast.Slice) and name.slice.upper is None:
         lo = val(name.slice.lower) if name.slice.lower is not None else None
         t = norm(lo) if lo is not None else ''
+        for _k in range(2):        # prefixLength = len(testClassName) + 1
+            if lo is not None and isinstance(lo, ast.Name) and lo.id in env:
+                lo = env[lo.id]
+                t = norm(lo)
         if any(t in ('len(%s) + 1' % c, '1 + len(%s)' % c, "len(%s + '.')" % c) for c in clsnames):
             verdict = True
         else:
@@ -525,6 +560,8 @@ def r5_own_class_and_name(ctx, rep, R='C17.R5'):
         return
     rep.check(verdict, R, 'test name = id with the "<class name>." prefix removed', why,
               key='own:name', func=fi.qualname, where=ctx.where(fi, rets[0]))
+    if not (isinstance(cls, ast.Call) and call_name(cls) == 'get_test_class_name'):
+        return                     # written out in place; checked above
     gc_ = m.func('formatter.get_test_class_name')
     rr = [n for n in ast.walk(gc_.node) if isinstance(n, ast.Return)]
     okg = len(rr) == 1 and '__module__' in norm(rr[0].value) and '__class__.__name__' in norm(rr[0].value)
